@@ -39,6 +39,19 @@ def site_problems(ctx, n):
                                 S("P0", "S2_0", 60.0, 59.999875, 40.0, 0.0), S("P0", "S3_0", 145.0, 100.0, 67.5, 10.0)],
                        utilities=[U("TopU", "Hot", 247.5, 2.5), U("MidU", "Both", 158.7499375, 2.5), U("BotU", "Both", 57.499875, 10.0)]),
                   dict(zones=1, shapes=["D44"], regime="witness")))
+    # regression of a corrected false alarm (DESIGN 12.3 item 11): a utility level on a half-microkelvin tie of the 6-decimal site grid
+    probs.append((dict(streams=[S("P0", "S0_0", 220.0, 220.000375, 5.0, 2.5),
+                                S("P0", "C1_0", 220.000375, 220.0, 2.5, 2.5),
+                                S("P0", "S2_0", 210.0, 200.0, 30.0, 2.5),
+                                S("P0", "S3_0", 65.0, 25.0, 30.0, 0.0),
+                                S("P0", "S4_0", 290.0, 170.0, 240.0, 2.5),
+                                S("P1", "S0_1", 65.0, 30.0, 26.25, 2.5),
+                                S("P1", "N1_1", 35.0, 60.0, 50.0, 2.5),
+                                S("P1", "S2_1", 100.0, 75.0, 18.75, 5.0),
+                                S("P1", "S3_1", 230.0, 229.999625, 40.0, 0.0),
+                                S("P1", "S4_1", 290.0, 195.0, 190.0, 5.0)],
+                       utilities=[U("TopU", "Both", 227.500375, 10.0), U("MidU", "Both", 123.7501875, 10.0), U("BotU", "Cold", 22.5, 5.0)]),
+                  dict(zones=2, shapes=["grid-tie"], regime="witness")))
     for i in range(n):
         if i % 4 == 0:
             probs.append(pc.gen_header_problem(ctx.rng))      # generation/use at nearly the same utility level
@@ -87,7 +100,7 @@ def run(ctx):
             ctx.fail("site-record-missing", "a process zone has no direct-integration record", suite="site", input=prob, predicate="one DI record per zone")
             continue
         xs = prob["streams"]
-        cf.add(f"c09_b eps6 [{'; '.join(c01.coq_sin(s) for s in xs)}] [{'; '.join(rec_coq(t) for t in zrecs)}] "
+        cf.add(f"c09_b eps6 {qlit(c02.site_grid_slack(prob, recs[need[1]]))} [{'; '.join(c01.coq_sin(s) for s in xs)}] [{'; '.join(rec_coq(t) for t in zrecs)}] "
                f"{rec_coq(recs[need[0]])} {rec_coq(recs[need[1]])} {rec_coq(recs[need[2]])}")
         meta.append((prob, m, [recs[k] for k in need], zrecs))
     agree = bad = 0
